@@ -816,6 +816,8 @@ func (sv *svc) common(r commonReq) bool {
 			e.Data = toGo(*sc.Data)
 		}
 		r.Error(e)
+	case "errorpredef":
+		r.Error(predefErr[sc.Code])
 	case "errornil":
 		r.Error((*res.Error)(nil))
 	case "errorother":
@@ -1005,6 +1007,8 @@ func outcomeTerm(sc *script) string {
 		return "(HNew " + B(sc.Rid) + ")"
 	case "error":
 		return "(HError (Some " + errTerm(sc.Code, sc.Msg, sc.Data) + "))"
+	case "errorpredef":
+		return "(HError (Some " + errTerm(sc.Code, predefErr[sc.Code].Message, nil) + "))"
 	case "errornil":
 		return "(HError None)"
 	case "errorother":
@@ -1128,6 +1132,59 @@ func caseRespU(text string) Case {
 	return c
 }
 
+// the predefined errors of errors.go by code
+var predefErr = map[string]*res.Error{
+	res.CodeAccessDenied: res.ErrAccessDenied, res.CodeInternalError: res.ErrInternalError, res.CodeInvalidParams: res.ErrInvalidParams,
+	res.CodeInvalidQuery: res.ErrInvalidQuery, res.CodeMethodNotFound: res.ErrMethodNotFound, res.CodeNotFound: res.ErrNotFound,
+	res.CodeTimeout: res.ErrTimeout,
+}
+var predefCodes = []string{res.CodeAccessDenied, res.CodeInternalError, res.CodeInvalidParams, res.CodeInvalidQuery,
+	res.CodeMethodNotFound, res.CodeNotFound, res.CodeTimeout}
+
+// errorMatrix: *res.Error values with every predefined code x {default, custom message} x
+// {no data, object, array, string, number} sent through r.Error and panic(*res.Error), on every
+// request kind (full product when full, else kinds rotate so that every code and every path
+// meets every kind), without and (where the kind allows it) with meta; plus the predefined
+// error variables themselves.
+func errorMatrix(full bool) []*script {
+	obj := jobj(mem("reason", jstr("r")), mem("n", jnum("1")))
+	sort.Slice(obj.O, func(a, b int) bool { return obj.O[a].Key < obj.O[b].Key })
+	arr := jarr(jnum("1"), jstr("x"))
+	str := jstr("details")
+	num := jnum("42")
+	datas := []*J{nil, &obj, &arr, &str, &num}
+	kinds := []string{"access", "get", "call", "auth", "new"}
+	var out []*script
+	i := 0
+	for _, code := range predefCodes {
+		for _, custom := range []bool{false, true} {
+			msg := predefErr[code].Message
+			if custom {
+				msg = "Custom: " + code
+			}
+			for _, d := range datas {
+				for _, path := range []string{"error", "panicerror"} {
+					for ki, req := range kinds {
+						if !full && ki != i%len(kinds) {
+							continue
+						}
+						out = append(out, &script{Req: req, Kind: path, Code: code, Msg: msg, Data: d})
+						// the same with meta on the kinds that can set it (a stride of them unless full)
+						if req != "get" && req != "new" && (full || i%3 == 0) {
+							out = append(out, &script{Req: req, Kind: path, Code: code, Msg: msg, Data: d, Status: 404, Header: [][]string{{"Location", "/x"}}})
+						}
+					}
+					i++
+				}
+			}
+		}
+		for _, req := range kinds {
+			out = append(out, &script{Req: req, Kind: "errorpredef", Code: code})
+		}
+	}
+	return out
+}
+
 func genScript(r *Rng) *script {
 	sc := &script{}
 	msgs := []string{"", "Custom message", "with \"quotes\" <&>", "é\u2028", "x"}
@@ -1144,6 +1201,12 @@ func genScript(r *Rng) *script {
 	}
 	errFields := func() {
 		sc.Code, sc.Msg = r.Pick(codes), r.Pick(msgs)
+		if r.Chance(40) {
+			sc.Code = r.Pick(predefCodes)
+			if r.Bool() {
+				sc.Msg = predefErr[sc.Code].Message
+			}
+		}
 		if r.Chance(40) {
 			d := genJ(r, 2, true)
 			sc.Data = &d
@@ -1492,6 +1555,13 @@ func main() {
 				impl = append(impl, *iv)
 			} else {
 				add("response-fixed", c)
+			}
+		}
+		for _, sc := range errorMatrix(thorough) {
+			if c, iv := caseResp(sv, sc); iv != nil {
+				impl = append(impl, *iv)
+			} else {
+				add("response-error-matrix", c)
 			}
 		}
 		for i := scale(350, 7000); i > 0; i-- {
